@@ -50,6 +50,7 @@ struct FnVisitor<'a> {
     li: &'a LineIdx,
     loops: Vec<Value>,
     arms: Vec<Value>,
+    matches: Vec<Value>,
     stmts: Vec<Value>,
     closures: Vec<Value>,
     macros: Vec<Value>,
@@ -65,7 +66,7 @@ struct FnVisitor<'a> {
 
 impl<'a> FnVisitor<'a> {
     fn new(li: &'a LineIdx) -> Self {
-        FnVisitor { li, loops: vec![], arms: vec![], stmts: vec![], closures: vec![], macros: vec![], binops: vec![], returns: vec![], tries: vec![], calls: vec![], pcalls: vec![], bytestrs: vec![], ifs: vec![], depth: 0 }
+        FnVisitor { li, loops: vec![], arms: vec![], matches: vec![], stmts: vec![], closures: vec![], macros: vec![], binops: vec![], returns: vec![], tries: vec![], calls: vec![], pcalls: vec![], bytestrs: vec![], ifs: vec![], depth: 0 }
     }
 }
 
@@ -96,6 +97,16 @@ impl<'a, 'ast> Visit<'ast> for FnVisitor<'a> {
         let pat = a.pat.to_token_stream().to_string();
         self.arms.push(json!({"pat": pat, "span": sp(self.li, a.span()), "body": sp(self.li, a.body.span()), "guard": a.guard.is_some()}));
         visit::visit_arm(self, a);
+    }
+    fn visit_expr_match(&mut self, m: &'ast syn::ExprMatch) {
+        let mut arms = vec![];
+        for a in &m.arms {
+            let guard = a.guard.as_ref().map(|(iff, g)| json!({"if": sp(self.li, iff.span()), "expr": sp(self.li, g.span())}));
+            arms.push(json!({"pat": a.pat.to_token_stream().to_string(), "pat_span": sp(self.li, a.pat.span()), "guard": guard,
+                "arrow": sp(self.li, a.fat_arrow_token.span()), "body": sp(self.li, a.body.span()), "span": sp(self.li, a.span())}));
+        }
+        self.matches.push(json!({"span": sp(self.li, m.span()), "arms": arms}));
+        visit::visit_expr_match(self, m);
     }
     fn visit_expr_closure(&mut self, c: &'ast syn::ExprClosure) {
         let mut unders = vec![];
@@ -193,7 +204,7 @@ impl<'a> Top<'a> {
             "ident": sp(li, sig.ident.span()),
             "paren": sp(li, sig.paren_token.span.join()),
             "attrs": attr_spans,
-            "loops": fv.loops, "arms": fv.arms, "stmts": fv.stmts, "closures": fv.closures,
+            "loops": fv.loops, "arms": fv.arms, "matches": fv.matches, "stmts": fv.stmts, "closures": fv.closures,
             "macros": fv.macros, "binops": fv.binops, "returns": fv.returns, "tries": fv.tries,
             "calls": fv.calls, "pcalls": fv.pcalls, "bytestrs": fv.bytestrs, "ifs": fv.ifs,
         }));
